@@ -43,7 +43,7 @@ m = dict(
            "Every check prints four measured lines: [T] property theorems kernel-checked (axiom audit), [R] request lines executed on the real code and on the compiled Lean model, "
            "[O] direct oracle checks on the real code, [D] sampled request lines re-executed on an unoptimised build of the real code (debug assertions, overflow checks). "
            "The request streams of every property include: bounded-exhaustive small inputs, generated inputs, character-class aliasing, every public entry point / trait impl of the property, "
-           "scale families around 2^8 / 2^12 / 2^16 / 2^18, cross-thread and abandoned-parse re-executions, and a regression corpus from 166 independently seeded changes (DESIGN.md §12)."),
+           "scale families around 2^8 / 2^12 / 2^16 / 2^18, cross-thread and abandoned-parse re-executions, and a regression corpus from 176 independently seeded changes (DESIGN.md §12)."),
 )
 json.dump(m, open(os.path.join(ROOT, "MANIFEST.json"), "w"), indent=1, ensure_ascii=False)
 print("MANIFEST.json: %d checks, %d not_applicable" % (len(checks), len(na)))
